@@ -78,6 +78,10 @@ def run(chk):
     chk.floor(R3 + ":functions-scanned", nfun, 300)
     chk.extra["pointer_order"] = {"functions": nfun, "pointer_comparisons": ncmp}
 
+    # ---------------------------------------------------------------- flag accessors (Section::clear_flags ...)
+    from lib import flagacc
+    flagacc.run(chk)
+
     return chk.finish(
         level="other",
         explanation=("Reset-closure coverage over /repo's current source: for each class that owns arena-backed containers or "
